@@ -1043,6 +1043,8 @@ def _stage_histories(ctx):
             else:
                 ctx.tally("history:call:" + st_["do"])
     ctx.run_cases(OPS["session"], hs)
+    for k, v in sorted(S.FALLBACKS.items()):
+        ctx.tally("path refused by the data model (fresh object used instead): " + k, v)
 
 
 def _stage_construction(ctx):
